@@ -55,6 +55,15 @@ def mk(text: str):
     return ts.Token(text)
 
 
+def _edit_detached(new: list, op: dict, stats) -> None:
+    for t, txt in zip(new, op.get('edit_detached', [])):
+        stats['detached_token_edited_before_insertion'] += 1
+        if _MODEL_TOKENS:
+            t.value = txt
+        else:
+            t.raw_text = txt
+
+
 def set_load_factor(lf: int) -> None:
     ts._LOAD_FACTOR = lf
     ts._DOUBLE_LOAD_FACTOR = lf * 2
@@ -191,7 +200,11 @@ class StoreSim(core.Engine):
             a, b = span()
             return {'op': 'splice', 'ref': a, 'del_end': b if rng.random() < 0.8 else None, 'new': new()}
         if kind in ('insert_after', 'insert_before'):
-            return {'op': kind, 'ref': None if n == 0 or rng.random() < 0.1 else rng.randrange(n), 'new': new()}
+            op = {'op': kind, 'ref': None if n == 0 or rng.random() < 0.1 else rng.randrange(n), 'new': new()}
+            if rng.random() < 0.3 and op['new']:
+                # tokens edited while detached (before insertion) must carry their new size into the store
+                op['edit_detached'] = [rng.choice(TEXTS) for _ in op['new']]
+            return op
         if kind == 'replace':
             return {'op': 'replace', 'ref': rng.randrange(n), 'new': new(1)}
         if kind == 'remove':
@@ -253,6 +266,7 @@ class StoreSim(core.Engine):
             if kind == 'insert_after':
                 a = op['ref']
                 new = [mk(t) for t in op['new']]
+                _edit_detached(new, op, stats)
                 store.insert_after(tok(a), new)
                 at = 0 if a is None else a + 1
                 ref[at:at] = new
@@ -260,6 +274,7 @@ class StoreSim(core.Engine):
             if kind == 'insert_before':
                 a = op['ref']
                 new = [mk(t) for t in op['new']]
+                _edit_detached(new, op, stats)
                 store.insert_before(tok(a), new)
                 at = 0 if a is None else a
                 ref[at:at] = new
